@@ -165,9 +165,13 @@ def gen_direct(rng):
         feats.add('tuples')
     elif kind == 'rename':
         kw = {}
-        if rng.random() < 0.4:
-            kw['db_column'] = rng.choice(['x', "x'y", 'ü'])
-        out.append(M.RenameField('A', 'c', 'cc', **kw))
+        # (a relation's default column is <name>_id: a db_column equal to
+        # the new field name is not redundant there)
+        old_name, new_name = rng.choice([('c', 'cc'), ('fk', 'fk2')])
+        if rng.random() < 0.6:
+            kw['db_column'] = rng.choice(['x', "x'y", 'ü', new_name,
+                                          new_name])
+        out.append(M.RenameField('A', old_name, new_name, **kw))
     elif kind == 'rename_model':
         out.append(M.RenameModel('B', 'Bb', db_table=rng.choice(
             ['app1_bb', 'app1_b', "t'x"])))
